@@ -81,8 +81,10 @@ inductive Out where
   | listed (rv : Nat)                     -- Bookmark.LISTED (rv = the listing's resourceVersion)
   | event (kind : Kind) (key rv : Nat)    -- ADDED / MODIFIED / DELETED
   | bookmark (rv : Nat)                   -- a BOOKMARK event (yielded too; `queueing.watcher` drops it)
-  | reqList
-  | reqWatch (since : Nat)
+  | reqList                               -- `fetching.list_objs`: one call of `api.request` (its first attempt)
+  | reqWatch (since : Nat)                -- `api.stream`: one call of `api.request` (its first attempt)
+  | retryList                             -- a further attempt of the same listing, re-sent by `api.request`'s retry loop
+  | retryWatch (since : Nat)              -- a further attempt of the same watch request
   | raised (k : RaiseKind)
   deriving DecidableEq, Repr
 
@@ -99,6 +101,9 @@ inductive Act where
   -- answers to the outstanding request
   | respond
   | failReq (k : ReqFail)
+  | retry       -- an attempt failed with a retryable error and its backoff is over: `api.request` re-sends it.
+                -- Nothing stops this loop on a pause: `fetching.list_objs` has no stopper, and the stopper
+                -- callback of `api.stream` fails on its own assert (finding C19-F2).
   -- lines and endings of the open watch response
   | deliver                 -- the next stored version after what was sent so far
   | bookmark (b : Nat)
@@ -197,6 +202,11 @@ def step (w : World) : Act → World
           else if decide (w.since < w.horizon) then toBackoff w       -- the stream is one ERROR 410 line: `return`
           else { w with phase := .streaming }
       | _ => w
+  | .retry =>
+      match w.phase with
+      | .listing => emit w [.retryList]
+      | .connecting => emit w [.retryWatch w.since]
+      | _ => w
   | .failReq k =>
       match w.phase with
       | .listing =>
@@ -263,6 +273,7 @@ def lastSeen : List Out → Nat
 def resumeOK : List Out → Bool
   | [] => true
   | .reqWatch v :: past => (v == lastSeen past) && resumeOK past
+  | .retryWatch v :: past => (v == lastSeen past) && resumeOK past
   | _ :: past => resumeOK past
 
 def Out.isReq : Out → Bool
@@ -271,6 +282,16 @@ def Out.isReq : Out → Bool
   | _ => false
 
 def reqCount (os : List Out) : Nat := (os.filter Out.isReq).length
+
+/-- Every HTTP attempt the API server receives: first attempts and re-sent ones. -/
+def Out.isAttempt : Out → Bool
+  | .reqList => true
+  | .reqWatch _ => true
+  | .retryList => true
+  | .retryWatch _ => true
+  | _ => false
+
+def attemptCount (os : List Out) : Nat := (os.filter Out.isAttempt).length
 
 /-- The oldest request among the observations. -/
 def oldestReq : List Out → Option Out
@@ -284,5 +305,40 @@ def oldestReq : List Out → Option Out
     made at or after it. -/
 def Covered (w : World) (e : Entry) : Prop :=
   e.rv ≤ w.listRv ∨ Out.event e.kind e.key e.rv ∈ w.outs
+
+/-! ### What the consumer knows -/
+
+/-- Look a key up in the items block that follows (i.e. is older than) a `listed`. -/
+def blockLookup : List Out → Nat → Option Nat
+  | .item k' rv :: rest, k => if k' = k then some rv else blockLookup rest k
+  | _, _ => none
+
+/-- The consumer's knowledge of object `k`, read off what it was handed (newest first): a watch event
+    sets it (DELETED: gone); a completed listing REPLACES it — an object that is not among the listed
+    items is not there. (Whether kopf's consumers draw that last conclusion is a different matter:
+    they are never *told* DELETED — `deleted_in_relist_gap_witness`, finding C19-F5.) -/
+def viewOf : List Out → Nat → Option Nat
+  | [], _ => none
+  | .event kind k' rv :: past, k =>
+      if k' = k then (if kind = .deleted then none else some rv) else viewOf past k
+  | .listed _ :: past, k => blockLookup past k
+  | _ :: past, k => viewOf past k
+
+/-- The server's state of object `k` as of version `v`. -/
+def stateAt (log : List Entry) (v : Nat) (k : Nat) : Option Nat :=
+  match lastOf (log.filter (fun e => decide (e.rv ≤ v))) k with
+  | some e => if e.kind = .deleted then none else some e.rv
+  | none => none
+
+/-- The pause has been noticed (or there is no stream to notice it): the pause-waiter of the current
+    `streaming_block` is done, or the client is between two blocks. -/
+def Quiet (w : World) : Prop :=
+  w.pauseSeen = true ∨ w.phase = .backoff ∨ w.phase = .blocked ∨ w.phase = .failed
+
+/-- A cooperative environment: un-pause, end whatever is going on, let the backoff pass, answer the
+    listing and the watch request. From every state that has not failed this reaches an open,
+    caught-up stream (`quiescence_reachable`). -/
+def recover : List Act :=
+  [.resume, .err410, .failReq .tooMany, .unblock, .wake, .respond, .respond]
 
 end Kopf.C19
